@@ -107,6 +107,21 @@ func genFramesD(o hx.Opts, emit func(string), r *hx.Rand) {
 	shd := hsFrag(14, 0, 0, 0, nil)
 	// corpus: one message; a message in two fragments; 300 one-byte fragments of distinct messages
 	// (the fragmentReads cap); a flood of warning alerts
+	// witness (unbounded handBuf inside ONE readRecord call): 200 datagrams, each one handshake
+	// fragment of 1000 bytes followed by a single trailing byte; and the same with a replayed
+	// record instead of the trailing byte
+	// record instead of the trailing byte, and with a warning alert (the handshake record resets
+	// retryCount, so the retries never reach maxUselessRecords)
+	var trail, dup, warnChain [][]byte
+	for i := 0; i < 200; i++ {
+		f := rec13(22, 0, 2*i+1, hsFrag(11, 65536, 0, 0, make([]byte, 1000)))
+		trail = append(trail, append(append([]byte(nil), f...), 0))
+		dup = append(dup, append(append([]byte(nil), f...), rec13(22, 0, 2*i+1, shd)...))
+		warnChain = append(warnChain, append(append([]byte(nil), f...), rec13(21, 0, 2*i+2, []byte{1, 90})...))
+	}
+	line(1, "H", trail)
+	line(1, "H", dup)
+	line(1, "H", warnChain)
 	line(1, "H,H", [][]byte{rec13(22, 0, 1, shd), rec13(22, 0, 2, shd)})
 	line(1, "H", [][]byte{rec13(22, 0, 1, hsFrag(20, 8, 0, 0, []byte{1, 2, 3, 4})), rec13(22, 0, 2, hsFrag(20, 8, 0, 4, []byte{5, 6, 7, 8}))})
 	var many [][]byte
